@@ -7,3 +7,4 @@
 import ForsysModel.Props.C13
 import ForsysModel.Props.C13relabel
 import ForsysModel.Props.C12relabel
+import ForsysModel.Props.C13more
